@@ -8,9 +8,36 @@ pub mod rarg;
 mod macros;
 
 pub mod chacha;
+pub mod vecops;
+#[cfg(feature = "hashes")]
+pub mod hashes;
+#[cfg(feature = "hashes")]
+pub mod tfish;
 
 pub fn dispatch(name: &str, args: &[String]) -> Option<Vec<String>> {
     if let Some(r) = chacha::dispatch(name, args) {
+        return Some(r);
+    }
+    if let Some(r) = chacha::api::dispatch(name, args) {
+        return Some(r);
+    }
+    if let Some(r) = chacha::step20::dispatch(name, args) {
+        return Some(r);
+    }
+    if let Some(r) = chacha::stepietf::dispatch(name, args) {
+        return Some(r);
+    }
+    if let Some(r) = chacha::stepx8::dispatch(name, args) {
+        return Some(r);
+    }
+    if let Some(r) = chacha::newstate::dispatch(name, args) {
+        return Some(r);
+    }
+    if let Some(r) = vecops::dispatch(name, args) {
+        return Some(r);
+    }
+    #[cfg(feature = "hashes")]
+    if let Some(r) = hashes::dispatch(name, args).or_else(|| tfish::dispatch(name, args)) {
         return Some(r);
     }
     None
